@@ -253,7 +253,7 @@ pub fn run_check(id: &str, tier: Tier) -> i32 {
             ctx.rule("bucket: burst B and rate R inferred black-box, then generated arrival sequences (dt in {0,1,2,10,49,50,51,10^4} s, sizes 0..3.2B) applied check-then-deplete as the limiter does, on a harness clock; oracle: every window's granted volume <= B + R*span (+R per grant rounding), idle >= B/R => request <= B granted; non-trivial = grant after a denial or an idle gap");
             props_dnsfunc::run_c16_func(&ctx);
             if wire_ok && ctx.violations.lock().unwrap().is_empty() {
-                ctx.rule("wire-limiter: on a fresh erbium-dns per case: (1) 1..4 sources that never spoke send one refused (ANY) query each over UDP and must get one REFUSED; (2) a burst of 200..2000 refused queries from one source address (spread over eight source ports) gets REFUSED for at most a quarter, and not more than a 200-query burst from another source (+2), and a second burst from the same source 0.3 s later gets at most 2; (3) a server cookie obtained from an answered query exempts a 60-query burst only with the same client cookie, source and server address; presented from another source, to another server address, with a flipped bit, with an invented server part, after a restart, or with a server part computed by the public algorithm (HMAC-SHA256 over client cookie, server address, client address) under a guessable key (all-zero, all-ones, 01..08), or cut to 1, 8 or 16 octets of server part it does not; (4) a source past its allowance tries all 256 one-octet server parts, none of which may exempt it");
+                ctx.rule("wire-limiter: first a steady flood of 20 refused queries a second from one source for 35 s (thorough 100 s), which must get no more REFUSED than burst + rate x time allows however the seconds fall; then on a fresh erbium-dns per case: (1) 1..4 sources that never spoke send one refused (ANY) query each over UDP and must get one REFUSED; (2) a burst of 200..2000 refused queries from one source address (spread over eight source ports) gets REFUSED for at most a quarter, and not more than a 200-query burst from another source (+2), and a second burst from the same source 0.3 s later gets at most 2; (3) a server cookie obtained from an answered query exempts a 60-query burst only with the same client cookie, source and server address; presented from another source, to another server address, with a flipped bit, with an invented server part, after a restart, or with a server part computed by the public algorithm (HMAC-SHA256 over client cookie, server address, client address) under a guessable key (all-zero, all-ones, 01..08), or cut to 1, 8 or 16 octets of server part it does not; (4) a source past its allowance tries all 256 one-octet server parts, none of which may exempt it");
                 ctx.assume("key rotation (24..36 h) cannot be driven in a running server: acceptance under the previous key and rejection after two rotations are not covered");
                 props_dnswire2::run_c16_wire(&ctx);
             }
